@@ -276,7 +276,7 @@ def cases(tier, seed):
         for idx in range(len(shapes)):
             if (idx + seed) % 6 == 0:
                 yield {"kind": "shape", "n": 5, "idx": idx, "rooted": bool(idx % 2), "pat": PATTERNS[idx % len(PATTERNS)], "seed": seed}
-    nrand = 1500 if tier == "quick" else 12000
+    nrand = 4000 if tier == "quick" else 12000
     for i in range(nrand):
         yield {"kind": "random", "i": i, "seed": seed}
 
